@@ -65,4 +65,13 @@ structure Req where
   ask : List Bytes
 deriving DecidableEq, Repr
 
+/-- one registration of the script: `r.METHOD(path)` directly or through nested groups with the given
+prefixes (outermost first), with the constraints as `RegisterRoute` hands them to the engines -/
+structure Reg where
+  method : Bytes
+  groups : List Bytes
+  path : Bytes
+  cons : List (Bytes × Nat)
+deriving DecidableEq, Repr
+
 end Rivaas.Route
